@@ -1,6 +1,7 @@
 package kessoku
 
 import (
+	"bytes"
 	"fmt"
 	"log/slog"
 	"os"
@@ -62,6 +63,13 @@ func (p *Processor) processFile(filename string) error {
 
 	slog.Debug("injectors", "injectors", injectors)
 
+	// Generate into memory first: a failing generation must not leave a
+	// truncated output file behind
+	var buf bytes.Buffer
+	if genErr := Generate(&buf, filename, metaData, injectors, p.varPool); genErr != nil {
+		return fmt.Errorf("generate: %w", genErr)
+	}
+
 	f, err := os.Create(outputFileName)
 	if err != nil {
 		return fmt.Errorf("create file %s: %w", outputFileName, err)
@@ -72,8 +80,8 @@ func (p *Processor) processFile(filename string) error {
 		}
 	}()
 
-	if genErr := Generate(f, filename, metaData, injectors, p.varPool); genErr != nil {
-		return fmt.Errorf("generate: %w", genErr)
+	if _, writeErr := f.Write(buf.Bytes()); writeErr != nil {
+		return fmt.Errorf("write file %s: %w", outputFileName, writeErr)
 	}
 
 	return nil
